@@ -591,6 +591,12 @@ class Runner:
                 nxt = self.interp(ops, i + 1)
         except SimFault as f:
             fault = f
+        except (Violation, HarnessError):
+            raise
+        except Exception as e:
+            # everything the body does is wrapped, so this comes from __enter__ or __exit__ themselves
+            raise Violation("context-exit-raises" if entered else "context-enter-raises",
+                            "context entered at op %d (depth %d): %s: %s" % (i, d0 + 1, type(e).__name__, e))
         if not entered:
             if fault is not None:
                 raise HarnessError("SimFault without entering")
